@@ -99,6 +99,7 @@ def stepLocal (toks : List String) : String :=
     | some texts => if texts.isEmpty then "bad-op" else " | ".intercalate (texts.map specParseStr)
     | none => "bad-op"
   | "thr-ro" :: _ | "thr-own" :: _ | "thr-pool" :: _ => Sonic.Model.Access.runLine toks
+  | "thr-poolcopy" :: rest => Sonic.Model.Access.runLine ("thr-pool" :: rest)   -- copies share the pool AND its lock: same model
   | ["spec-decimal", n] =>
     match n.toNat? with
     | some v => hexOf (Sonic.Spec.decimal v)
